@@ -376,6 +376,56 @@ fn memory_store_sequences(rep: &mut Report, args: &Args) {
     }
 }
 
+/// The single-slot store shipped with the library (`Option<Passkey>`, bare and behind the lock wrappers),
+/// empty or already occupied: after every successful registration the slot holds the new credential.
+fn single_slot_sequences(rep: &mut Report, args: &Args) {
+    use passkey_client::{Client, DefaultClientData};
+    use passkey_types::Passkey;
+    let only = replay_index(args);
+    let n = args.size(45, 600) as u64;
+    for k in 0..n {
+        let index = 33_000_000 + k;
+        if only.map_or(false, |o| o != index) {
+            continue;
+        }
+        let mut rng = Rng::derive(args.seed, "c02slot", k);
+        let log = crate::collab::Log::new();
+        let uv = crate::collab::RecUv::new(log.clone(), crate::collab::UvOutcome::Check { presence: true, verification: true }, Some(true));
+        let cfg = crate::util::AuthCfg { counters: rng.bool(), ..Default::default() };
+        let occupied = rng.bool();
+        let form = k % 3;
+        let start: Option<Passkey> = occupied.then(|| crate::util::seeded_passkey(&mut rng, "example.com", &[0xAB; 16], Some(b"earlier"), Some(3), None).0);
+        let steps = rng.range(1, 3);
+        macro_rules! drive {
+            ($store:expr, $held:expr) => {{
+                let mut client = Client::new_with_custom_tld_provider(crate::util::mk_auth($store, uv.clone(), cfg), crate::collab::RecTld::default_list(log.clone()));
+                for step in 0..steps {
+                    rep.eval();
+                    let case = json!({"index": index, "part": "single-slot-store-sequence", "store": (["Option<Passkey>", "Arc<Mutex<Option<Passkey>>>", "Arc<RwLock<Option<Passkey>>>"][form as usize]), "occupied_at_the_start": occupied, "step": step});
+                    rep.nontrivial(fnv_str(&format!("slot|{form}|{occupied}|{step}")));
+                    let opts = crate::util::creation_options(Some("example.com"), format!("user-{step}").as_bytes(), "n", &rng.bytes(16), vec![crate::util::pk_param(coset::iana::Algorithm::ES256)]);
+                    match catch(|| crate::exec::block_on(client.register(&crate::util::url("https://example.com"), opts, DefaultClientData))) {
+                        Err((sig, d)) => rep.violate(&format!("single-slot store: register {sig}"), d, case),
+                        Ok(Err(_)) => rep.count("single_slot_refused"),
+                        Ok(Ok(c)) => {
+                            rep.count("single_slot_registered");
+                            let held: Option<Vec<u8>> = $held(&client);
+                            if held.as_deref() != Some(c.raw_id.as_slice()) {
+                                rep.violate("single-slot store: after a successful registration the store does not hold the new credential", format!("returned id {}, the slot holds {:?}", hex_short(&c.raw_id), held.as_ref().map(|h| hex_short(h))), case);
+                            }
+                        }
+                    }
+                }
+            }};
+        }
+        match form {
+            0 => drive!(start, |c: &Client<Option<Passkey>, crate::collab::RecUv, crate::collab::RecTld>| c.authenticator().store().as_ref().map(|p| p.credential_id.to_vec())),
+            1 => drive!(std::sync::Arc::new(tokio::sync::Mutex::new(start)), |c: &Client<std::sync::Arc<tokio::sync::Mutex<Option<Passkey>>>, crate::collab::RecUv, crate::collab::RecTld>| c.authenticator().store().try_lock().ok().and_then(|g| g.as_ref().map(|p| p.credential_id.to_vec()))),
+            _ => drive!(std::sync::Arc::new(tokio::sync::RwLock::new(start)), |c: &Client<std::sync::Arc<tokio::sync::RwLock<Option<Passkey>>>, crate::collab::RecUv, crate::collab::RecTld>| c.authenticator().store().try_read().ok().and_then(|g| g.as_ref().map(|p| p.credential_id.to_vec()))),
+        }
+    }
+}
+
 /// The id-length value an application obtains from `CredentialIdLength::randomized` (with whatever
 /// random source it has) is a length the authenticator then honours: 16..=64, and the registered id
 /// has exactly that length.
@@ -445,6 +495,7 @@ pub fn run(args: &Args) -> Report {
     });
     if replay_index(args).map_or(true, |o| (30_000_000..40_000_000).contains(&o)) {
         memory_store_sequences(&mut rep, args);
+        single_slot_sequences(&mut rep, args);
     }
     randomized_id_lengths(&mut rep, args);
     if replay_index(args).is_none() && (rep.get("register_ok") == 0 || rep.get("make_ok") == 0 || rep.get("unsupported_list_failed") == 0) {
